@@ -570,6 +570,16 @@ theorem call_raw_keys (c : Call) (hwf : c.WF) (hs : Same now p r) (hl : p.listen
     exact one (zincrby_main hs hl hfd (Call.zincrBy k m d).info rfl k m d hwf hreg).2.2
   | hincrByFloat k f d =>
     exact one (hincrbyfloat_main hs hl hfd (Call.hincrByFloat k f d).info rfl k f d hwf hreg).2.2
+  | zunionStore dst ks ws agg =>
+    intro op hop
+    rw [(zstore_main true hs hl hfd (Call.zunionStore dst ks ws agg).info (Or.inl rfl) dst ks ws agg rfl rfl rfl
+      hreg).2.2 op hop]
+    simp [Call.keys]
+  | zinterStore dst ks ws agg =>
+    intro op hop
+    rw [(zstore_main false hs hl hfd (Call.zinterStore dst ks ws agg).info (Or.inr rfl) dst ks ws agg rfl rfl rfl
+      hreg).2.2 op hop]
+    simp [Call.keys]
 
 /-- every record handed to a watcher by a covered call names one of the call's key arguments
     (CLEAR hands over one CLEAR record, which names no key) -/
